@@ -69,6 +69,14 @@ def run(rep, tier, seed):
             rrs.append({"rparts": gen.path_recipe(rng, doc, maxlen=2), "cast": None,
                         "cond": ("leaf", {"datum": "value", "pre": "none", "fn": rng.choice(["equal_to", "in_", "not_equal_to"]),
                                           "actuals": [pa], "akw": {}})})
+        if rng.random() < 0.04:
+            # a declared cast over nodes holding strings that only SOME conversion accepts ("inf", "1e999", "1e3", "2.0",
+            # "nan"): what cannot be cast is left as it is; nothing is raised
+            vals = rng.sample(["inf", "Infinity", "-inf", "1e999", "1e3", "nan", "2.0", "3", "x", 4, None], rng.randint(2, 5))
+            doc = {"f": vals, "n": 1} if rng.random() < 0.5 else {"f": {("k%d" % j): v for j, v in enumerate(vals)}, "n": 1}
+            fan = {"rk": "list" if isinstance(doc["f"], list) else "map", "key": None, "index": None, "value": None, "cond": None, "label": None}
+            rrs = [{"rparts": [("prim", "f"), fan], "cast": rng.choice(["int", "int", "bool"]),
+                    "cond": ("leaf", {"datum": "value", "pre": "dtype", "fn": "equal_to", "actuals": [int], "akw": {}})}] + rrs[:1]
         if rng.random() < 0.12:
             # arguments that are data paths into the same document (also .single() / .first() paths that match several
             # nodes or none): whatever they resolve to - or fail to - the node fails, validation does not raise
